@@ -250,7 +250,7 @@ func (s *CoAServer) receiveLoop(ctx context.Context) {
 		length := binary.BigEndian.Uint16(buf[2:4])
 		authenticator := buf[4:20]
 
-		if int(length) > n {
+		if length < 20 || int(length) > n {
 			continue
 		}
 
